@@ -357,6 +357,17 @@ class SNum:
         symx._ctx.unsupported('round()')
         raise TypeError('symx: round() with this precision')
 
+    def __floor__(self):
+        return self if self.is_int else SNum(z3.ToInt(self.t), True)
+
+    def __ceil__(self):
+        return self if self.is_int else SNum(-z3.ToInt(-self.t), True)
+
+    def __trunc__(self):
+        if self.is_int:
+            return self
+        return SNum(z3.If(self.t >= 0, z3.ToInt(self.t), -z3.ToInt(-self.t)), True)
+
     def __repr__(self):
         return '<sym>'
 
